@@ -18,6 +18,7 @@ import Pyiga.Proofs.HierAdm
 import Pyiga.Proofs.HierTPAdm
 import Pyiga.Proofs.HierCover
 import Pyiga.Proofs.HierInc
+import Pyiga.Proofs.HierIndep
 
 namespace Pyiga.Props.C04
 open Pyiga.Hier Pyiga.Index
@@ -495,6 +496,48 @@ theorem incidence (kvs : Mesh) (d : Option Nat) (hg : GoodMesh kvs) {s : HSpace}
     unfold HSpace.activeCellsFlat
     show (mapFrom _ 0 s.levels).flatten[encCell s.levels m c]? = _
     rw [h1, h2, Nat.zero_add]
+
+/-! ## linear independence -/
+
+/-- **linear independence (Kraft), relative to local linear independence of B-splines.**  Let
+`G : Geometry kvs P R` provide the values `val ℓ f x` of the tensor-product B-splines and the cell
+`cellOf ℓ x` containing a point, with the two classical facts as hypotheses: a B-spline vanishes
+outside its support cells, and the B-splines that do not vanish on a cell are linearly independent
+on that cell.  Then after any refinement history the active functions of all levels are linearly
+independent: a combination that vanishes at every point has all coefficients zero. -/
+theorem linear_independence (kvs : Mesh) (d : Option Nat) (hg : GoodMesh kvs) {P R : Type} [CommRing R]
+    (G : Geometry kvs P R) {s : HSpace} (h : Reachable kvs d s) (a : Nat → Idx → R)
+    (h0 : ∀ x, comb G s.levels a x = 0) (l : Nat) (hl : l < s.numlevels) (f : Idx)
+    (hf : f ∈ (s.level l).actfun) : a l f = 0 :=
+  indep_of_inv G s.levels (reachable_wf kvs d hg h).2 a h0 l hl f hf
+
+/-- the hypotheses of `Geometry` are consistent (zero-dimensional instance: one cell, the constant
+function) -/
+example : Geometry ([] : Mesh) Unit Int where
+  cellOf := fun _ _ => []
+  val := fun _ _ _ => 1
+  cell_valid := fun _ _ => by simp [VCtp, meshAt, Below]
+  cell_par := fun _ _ => rfl
+  loc := fun l f x hf hn => by
+    have : f = [] := by
+      cases f with
+      | nil => rfl
+      | cons a as => simp [VFtp, meshAt, Below] at hf
+    subst this
+    exact absurd (by simp [meshAt, Mesh.support, Mesh.supportOne, cart, dedup]) hn
+  indep := fun l c a hvc hsum f hf _ => by
+    have hf' : f = [] := by
+      cases f with
+      | nil => rfl
+      | cons a as => simp [VFtp, meshAt, Below] at hf
+    subst hf'
+    have hc : c = [] := by
+      cases c with
+      | nil => rfl
+      | cons a as => simp [VCtp, meshAt, Below] at hvc
+    subst hc
+    have := hsum () rfl
+    simpa [Mesh.functions, meshAt, cart, Mesh.support, Mesh.supportOne, dedup] using this
 
 /-! ## non-vacuity -/
 
